@@ -2069,6 +2069,157 @@ theorem gc_request_completes {c : Cfg} {tr : Nat → State} {act : Nat → Optio
     · have : i = j0 + 1 := by omega
       subst this; rw [hg1]; exact hg0
 
+/-! ## the exit protocol (C16 liveness) -/
+
+/-- a set of "late" program points: never a polling / running / parking / waiting worker -/
+structure LatePred (q : PC → Bool) : Prop where
+  polling : ∀ l, q (.polling l) = false
+  exec : ∀ p, q (.exec p) = false
+  parking : q .parking = false
+  waiting : q .waiting = false
+
+theorem q_keep {q : PC → Bool} {s t : State} {w' x : Nat} {p : PC} (hpc : t.pc = s.pc) (h : q (s.pc x) = true)
+    (hsrc : q (s.pc w') = false) : q ((setPc t w' p).pc x) = true := by
+  have e : x ≠ w' := by intro e; subst e; rw [h] at hsrc; cases hsrc
+  simp only [setPc, e, if_false, hpc]; exact h
+
+theorem notifyAll_late {q : PC → Bool} (hq : LatePred q) (s : State) (x : Nat) (h : q (s.pc x) = true) :
+    q ((notifyAll s).pc x) = true := by
+  simp only [notifyAll]; split
+  · rename_i e; rw [e, hq.waiting] at h; cases h
+  · exact h
+
+theorem notifyOne_late {q : PC → Bool} (hq : LatePred q) {c : Cfg} {s s' : State} {y : Option Nat}
+    (hs : notifyOne c s y = some s') (x : Nat) (h : q (s.pc x) = true) : q (s'.pc x) = true := by
+  rcases notifyOne_cases hs with ⟨x0, _, _, hw, rfl⟩ | ⟨_, _, rfl⟩
+  · exact q_keep (s := s) rfl h (by rw [hw]; exact hq.waiting)
+  · exact h
+
+/-- a worker at a late program point stays there until its own `wake` / `surrender`, or a respawn -/
+theorem step_late_stable {q : PC → Bool} (hq : LatePred q) {c : Cfg} {s s' : State} {a : Act}
+    (hs : step c s a = some s') (x : Nat) (h : q (s.pc x) = true) :
+    q (s'.pc x) = true ∨ a = .wake x ∨ a = .surrender x ∨ a = .respawn := by
+  cases a
+  case respawn => exact Or.inr (Or.inr (Or.inr rfl))
+  case park w' tag =>
+    left
+    by_cases e : x = w'
+    · subst e
+      obtain ⟨_, hp, _, _⟩ := step_park_cases hs
+      rw [hp, hq.parking] at h; cases h
+    · rcases step_park_other hs e with h1 | ⟨h1, _⟩
+      · rw [h1]; exact h
+      · rw [h1, hq.waiting] at h; cases h
+  case wake w' =>
+    by_cases e : x = w'
+    · subst e; exact Or.inr (Or.inl rfl)
+    · left
+      simp only [step] at hs
+      split at hs
+      · injection hs with hs; subst hs
+        rw [afterUnpark_pc_other e]; exact h
+      · cases hs
+  case surrender w' =>
+    by_cases e : x = w'
+    · subst e; exact Or.inr (Or.inr (Or.inl rfl))
+    · left
+      simp only [step] at hs
+      split at hs
+      · split at hs
+        · have key : s'.pc = (setPc s w' .surrendered).pc := by
+            split at hs <;> (injection hs with hs; subst hs; rfl)
+          rw [key]; simp only [setPc, e, if_false]; exact h
+        · cases hs
+      · cases hs
+  case makeRequest g y =>
+    left
+    simp only [step] at hs
+    have hc : (consumePending s g).pc = s.pc := by unfold consumePending; split <;> rfl
+    split at hs
+    · cases hs
+    · split at hs
+      · split at hs
+        · injection hs with hs; subst hs; rw [hc]; exact h
+        · cases hs
+      · have e : (setRequested (consumePending s g) g true).pc = s.pc := by cases g <;> exact hc
+        exact notifyOne_late hq hs x (by rw [e]; exact h)
+  case bucketNotifyOne w' b y =>
+    left
+    simp only [step] at hs
+    split at hs
+    · exact notifyOne_late hq hs x h
+    · cases hs
+  case mutNotifyOne b y =>
+    left
+    simp only [step] at hs
+    split at hs
+    · exact notifyOne_late hq hs x h
+    · cases hs
+  case bucketNotifyAll w' b =>
+    left
+    simp only [step] at hs
+    split at hs
+    · injection hs with hs; subst hs; exact notifyAll_late hq s x h
+    · cases hs
+  case wakeAll w' =>
+    left
+    simp only [step] at hs
+    split at hs
+    · injection hs with hs; subst hs; exact notifyAll_late hq s x h
+    · cases hs
+  case execEnd w' =>
+    left
+    simp only [step] at hs
+    split at hs
+    · rename_i p0 hpc
+      split at hs
+      · injection hs with hs; subst hs
+        exact q_keep (s := s) rfl h (by rw [hpc]; exact hq.exec _)
+      · cases hs
+    · cases hs
+  case batchMove w' b p =>
+    left
+    simp only [step] at hs
+    split at hs
+    · split at hs
+      · injection hs with hs; subst hs; exact h
+      · cases hs
+    · rename_i seen hpc
+      split at hs
+      · injection hs with hs; subst hs
+        exact q_keep (s := s) rfl h (by rw [hpc]; exact hq.polling _)
+      · cases hs
+    · cases hs
+  case spurious w' =>
+    left
+    simp only [step] at hs
+    split at hs
+    · rename_i hg; injection hs with hs; subst hs
+      exact q_keep (s := s) rfl h (by rw [hg.2]; exact hq.waiting)
+    · cases hs
+  case requestFlag =>
+    left
+    simp only [step] at hs
+    split at hs <;> (injection hs with hs; subst hs; exact h)
+  all_goals
+    left
+    simp only [step] at hs
+    repeat' (split at hs)
+    all_goals first
+      | (injection hs with hs; subst hs; exact h)
+      | (rename_i hpc _; injection hs with hs; subst hs
+         exact q_keep (s := s) rfl h (by rw [hpc]; exact hq.polling _))
+      | cases hs
+
+def qWoken : PC → Bool | .woken => true | _ => false
+def qExited : PC → Bool | .exited => true | _ => false
+def qSurr : PC → Bool | .surrendered => true | _ => false
+def qLate : PC → Bool | .woken | .exited | .surrendered => true | _ => false
+theorem late_qWoken : LatePred qWoken := ⟨fun _ => rfl, fun _ => rfl, rfl, rfl⟩
+theorem late_qExited : LatePred qExited := ⟨fun _ => rfl, fun _ => rfl, rfl, rfl⟩
+theorem late_qSurr : LatePred qSurr := ⟨fun _ => rfl, fun _ => rfl, rfl, rfl⟩
+theorem late_qLate : LatePred qLate := ⟨fun _ => rfl, fun _ => rfl, rfl, rfl⟩
+
 /-! ## finite runs extended by stuttering are fair runs (used for the satisfiability examples) -/
 
 /-- the states of the run `l` from `s`, then `s` repeated -/
